@@ -22,15 +22,71 @@ import (
 	"os"
 	"path/filepath"
 	"sort"
+	"strconv"
 	"sync"
 	"sync/atomic"
 	"time"
 
 	"github.com/Query-farm/vgi-rpc-go/vgirpc"
+	"github.com/apache/arrow-go/v18/arrow"
+	"github.com/apache/arrow-go/v18/arrow/array"
+	"github.com/apache/arrow-go/v18/arrow/memory"
 )
 
+// c42ShmEligible: the request's parameter batch can travel as a pointer batch (one well-formed batch, no fake pointer metadata).
+func c42ShmEligible(c c02Call) bool {
+	return c.Req.Rows == 1 && !c.Req.Ptr && c.Req.Extra == 0 && c.Req.Shape != "empty"
+}
+
+// c42CallBytes frames one call of a connection that owns segment seg (nil: none). The connection's first call
+// advertises the segment; every later eligible call puts its parameter batch INTO the segment and sends only a
+// zero-row pointer batch (offset / length), as the protocol allows once the segment was advertised on the connection.
+func c42CallBytes(c c02Call, seg *vgirpc.ShmSegment, first bool) ([]byte, string) {
+	if seg == nil {
+		return c02CallBytes(c), "inline"
+	}
+	if !first && !c42ShmEligible(c) {
+		return c02CallBytes(c), "inline"
+	}
+	b := c02ReqBatch(c.Req)
+	defer b.Release()
+	meta := c02ReqMeta(c.Req)
+	var out []byte
+	how := "advertise"
+	if first {
+		if c.Req.Extra > 0 {
+			return c02CallBytes(c), "inline" // never generated for a shm connection's first call
+		}
+		meta = append(meta, [2]string{vgirpc.MetaShmSegmentName, seg.Name()}, [2]string{vgirpc.MetaShmSegmentSize, strconv.Itoa(seg.Size())})
+		out = ReqBytes(b, meta)
+	} else {
+		off, ln, ok, err := seg.AllocateAndWrite(b)
+		if err != nil || !ok {
+			return c02CallBytes(c), "inline"
+		}
+		how = "pointer"
+		cols := make([]arrow.Array, b.Schema().NumFields())
+		for i, f := range b.Schema().Fields() {
+			bl := array.NewBuilder(memory.DefaultAllocator, f.Type)
+			cols[i] = bl.NewArray()
+			bl.Release()
+		}
+		zero := array.NewRecordBatch(b.Schema(), cols, 0)
+		for _, a := range cols {
+			a.Release()
+		}
+		meta = append(meta, [2]string{vgirpc.MetaShmOffset, strconv.FormatUint(off, 10)}, [2]string{vgirpc.MetaShmLength, strconv.Itoa(ln)})
+		out = ReqBytes(zero, meta)
+		zero.Release()
+	}
+	if c.Stream {
+		out = append(out, InputBytes(c02InSchema(c.InShape), c.Items)...)
+	}
+	return out, how
+}
+
 type c42Op struct {
-	K  string `json:"k"` // "open" | "talk" | "close" | "wait"
+	K  string `json:"k"` // "open" | "talk" | "talkrr" (round-robin: call k of every listed connection, in list order, before call k+1) | "close" | "wait"
 	C  int    `json:"c,omitempty"`
 	Cs []int  `json:"cs,omitempty"`
 	D  int    `json:"d,omitempty"` // ms
@@ -41,6 +97,7 @@ type c42In struct {
 	IdleMs int         `json:"idle_ms"`
 	Gate   bool        `json:"gate"`
 	Hook   []bool      `json:"hook,omitempty"` // serve-start hook script: verdict of its j-th invocation, true = it fails; past the end it succeeds
+	Shm    []bool      `json:"shm,omitempty"`  // connection c ships its parameter batches through ITS OWN shared-memory segment (advertised on its first call)
 	Conns  [][]c02Call `json:"conns"`
 	Ops    []c42Op     `json:"ops"`
 	Class  string      `json:"class"`
@@ -219,6 +276,19 @@ func c42Attempt(in c42In) c42Result {
 		return res
 	}
 	defer os.RemoveAll(dir)
+	segs := make([]*vgirpc.ShmSegment, len(in.Conns)) // every shm connection has a segment of ITS OWN
+	for c := range in.Conns {
+		if c < len(in.Shm) && in.Shm[c] {
+			seg, err := vgirpc.ShmCreate(vgirpc.ShmHeaderSize + (1 << 16))
+			if err != nil {
+				res.Notes = append(res.Notes, fmt.Sprintf("conn %d: no shm segment: %v", c, err))
+				continue
+			}
+			segs[c] = seg
+			defer seg.Close()
+		}
+	}
+	sent := make([]int, len(in.Conns)) // calls already sent on connection c
 	path := filepath.Join(dir, "s.sock")
 	idle := time.Duration(in.IdleMs) * time.Millisecond
 	bound := make(chan string, 1)
@@ -284,32 +354,39 @@ func c42Attempt(in c42In) c42Result {
 			}
 		}
 	}
-	talk := func(c int) []RStream {
+	// talkFrom sends calls [from, to) of connection c, reading every response; ok = false when the connection broke
+	talkFrom := func(c, from, to int) (out []RStream, ok0 bool) {
 		conn := conns[c]
-		var out []RStream
-		for i, call := range in.Conns[c] {
+		for i := from; i < to && i < len(in.Conns[c]); i++ {
+			call := in.Conns[c][i]
 			_ = conn.SetWriteDeadline(time.Now().Add(5 * time.Second))
-			if _, err := conn.Write(c02CallBytes(call)); err != nil {
+			bs, _ := c42CallBytes(call, segs[c], i == 0)
+			if _, err := conn.Write(bs); err != nil {
 				out = append(out, RStream{Err: fmt.Sprintf("write#%d failed", i)})
-				return out
+				return out, false
 			}
 			st, ok := c02ReadStream(conn, 5*time.Second)
 			if !ok {
 				out = append(out, RStream{Err: fmt.Sprintf("read#%d: %s", i, st.Err)})
-				return out
+				return out, false
 			}
 			out = append(out, st)
 			if call.Stream && st.Schema == "h:int64" {
 				st2, ok := c02ReadStream(conn, 5*time.Second)
 				if !ok {
 					out = append(out, RStream{Err: fmt.Sprintf("read#%d(data): %s", i, st2.Err)})
-					return out
+					return out, false
 				}
 				out = append(out, st2)
 			}
 		}
+		return out, true
+	}
+	talk := func(c int) []RStream {
+		out, _ := talkFrom(c, 0, len(in.Conns[c]))
 		return out
 	}
+	_ = sent
 
 	for _, o := range in.Ops {
 		p := c42Probe{Ok: true}
@@ -376,6 +453,37 @@ func c42Attempt(in c42In) c42Result {
 				}(c)
 			}
 			wgrp.Wait()
+		case "talkrr":
+			var rr []int
+			for _, c := range o.Cs {
+				if conns[c] == nil {
+					p.Ok = false
+					continue
+				}
+				if res.Talked[c] {
+					continue
+				}
+				res.Talked[c] = true
+				rr = append(rr, c)
+			}
+			broken := map[int]bool{}
+			for k := 0; ; k++ {
+				any := false
+				for _, c := range rr {
+					if k >= len(in.Conns[c]) || broken[c] {
+						continue
+					}
+					any = true
+					v, ok := talkFrom(c, k, k+1)
+					res.Views[c] = append(res.Views[c], v...)
+					if !ok {
+						broken[c] = true
+					}
+				}
+				if !any {
+					break
+				}
+			}
 		case "close":
 			conn := conns[o.C]
 			if conn == nil {
@@ -430,14 +538,16 @@ func c42Attempt(in c42In) c42Result {
 
 func c42OpTerm(o c42Op) string {
 	switch o.K {
-	case "open":
-		return App("C42.Open", Nat(o.C))
 	case "talk":
-		return App("C42.Talk", ListOf(o.Cs, Nat))
+		return App("C42.Plain", App("C42.Talk", ListOf(o.Cs, Nat)))
+	case "talkrr":
+		return App("C42.TalkRR", ListOf(o.Cs, Nat))
 	case "close":
-		return App("C42.Close", Nat(o.C))
+		return App("C42.Plain", App("C42.Close", Nat(o.C)))
+	case "open":
+		return App("C42.Plain", App("C42.Open", Nat(o.C)))
 	}
-	return App("C42.Wait", N(uint64(o.D)))
+	return App("C42.Plain", App("C42.Wait", N(uint64(o.D))))
 }
 
 func c42Run(in c42In) CaseOut {
@@ -481,6 +591,20 @@ func c42RunNow(in c42In) CaseOut {
 	}
 	if in.IdleMs == 0 {
 		tagset["idle-off"] = true
+	}
+	nshm := 0
+	for _, f := range in.Shm {
+		if f {
+			nshm++
+		}
+	}
+	if nshm > 0 {
+		tagset[fmt.Sprintf("shm-conns-%d", nshm)] = true
+	}
+	for _, o := range in.Ops {
+		if o.K == "talkrr" {
+			tagset["talk-round-robin"] = true
+		}
 	}
 	stopped, refused, heldOpen, talked, failing := false, false, false, 0, 0
 	mon := newC42MonH(in.IdleMs, in.Hook)
@@ -545,7 +669,7 @@ func c42RunNow(in c42In) CaseOut {
 	}
 	sort.Strings(tags)
 
-	coqIn := App("C42.Build_input", Bool(in.Unix), N(uint64(in.IdleMs)), Bool(in.Gate), ListOf(in.Hook, Bool),
+	coqIn := App("C42.Build_input", Bool(in.Unix), N(uint64(in.IdleMs)), Bool(in.Gate), ListOf(in.Hook, Bool), ListOf(in.Shm, Bool),
 		ListOf(in.Conns, func(cs []c02Call) string { return ListOf(cs, c02CallTerm) }), ListOf(in.Ops, c42OpTerm))
 	probes := ListOf(res.Probes, func(p c42Probe) string {
 		return App("C42.Build_probe", Bool(p.Ok), Bool(p.Refused), Bool(p.Ret), Opt(p.File >= 0, N(uint64(max(p.File, 0)))))
@@ -658,10 +782,26 @@ func c42Calls(r *rand.Rand, gate bool, conn, n int, classes []string) []c02Call 
 	return out
 }
 
-func w(d int) c42Op       { return c42Op{K: "wait", D: d} }
-func opn(c int) c42Op     { return c42Op{K: "open", C: c} }
-func cls(c int) c42Op     { return c42Op{K: "close", C: c} }
-func tlk(cs ...int) c42Op { return c42Op{K: "talk", Cs: cs} }
+// c42ShmFix makes a call list fit for a connection that uses its own shm segment: the first call (which advertises the
+// segment) is a plain good unary call, and no call carries C02's fake pointer metadata (there IS a segment here).
+func c42ShmFix(r *rand.Rand, gate bool, conn int, calls []c02Call) []c02Call {
+	g := &c02Gen{r: r, gate: gate}
+	for i := range calls {
+		if i == 0 || calls[i].Req.Ptr {
+			c := g.call1("ok-unary")
+			c.Req.X = calls[i].Req.X
+			c.Req.ReqID = calls[i].Req.ReqID
+			calls[i] = c
+		}
+	}
+	return calls
+}
+
+func tlkrr(cs ...int) c42Op { return c42Op{K: "talkrr", Cs: cs} }
+func w(d int) c42Op         { return c42Op{K: "wait", D: d} }
+func opn(c int) c42Op       { return c42Op{K: "open", C: c} }
+func cls(c int) c42Op       { return c42Op{K: "close", C: c} }
+func tlk(cs ...int) c42Op   { return c42Op{K: "talk", Cs: cs} }
 
 func c42Boundary(r *rand.Rand, idle int, unix bool, tier string) []c42In {
 	g := &c42Gen{r: r, idle: idle}
@@ -714,6 +854,28 @@ func c42Boundary(r *rand.Rand, idle int, unix bool, tier string) []c42In {
 	out = append(out, hk(mk("refused-only", false, 3, []c42Op{opn(0), w(g.short()), opn(1), w(g.short()), w(g.short()), w(g.long()), opn(2)}), true, true, true))
 	// a script whose first verdict is success: never consulted again
 	out = append(out, hk(mk("accepts-first", false, 3, []c42Op{opn(0), opn(1), tlk(0, 1), cls(0), w(g.long()), cls(1), w(g.long()), opn(2)}), false, true, true))
+	// --- connections that ship their parameters through a shared-memory segment of THEIR OWN; round-robin talk forces the
+	// order init A, init B, pointer A, pointer B, ...: every pointer must be resolved against the segment advertised on ITS connection
+	shm := func(in c42In, flags ...bool) c42In {
+		in.Shm = flags
+		in.Class = "shm-" + in.Class
+		for c := range in.Conns {
+			if c < len(flags) && flags[c] {
+				in.Conns[c] = c42ShmFix(r, in.Gate, c, in.Conns[c])
+			}
+		}
+		return in
+	}
+	out = append(out, shm(mk("init-init-ptr", false, 2, []c42Op{opn(0), opn(1), tlkrr(0, 1), cls(0), cls(1), w(g.long())},
+		[]string{"ok-unary", "ok-unary", "ok-unary"}, []string{"ok-unary", "ok-unary", "ok-unary"}), true, true))
+	out = append(out, shm(mk("three-reversed", true, 3, []c42Op{opn(0), opn(1), opn(2), tlkrr(2, 0, 1), cls(1), cls(0), cls(2), w(g.long())},
+		[]string{"ok-unary", "ok-stream", "ok-unary"}, []string{"ok-unary", "unary-handler-error", "ok-stream", "ok-unary"}, []string{"ok-unary", "ok-unary", "mid-stream-error"}), true, true, true))
+	out = append(out, shm(mk("mixed-with-plain", false, 3, []c42Op{opn(0), opn(1), opn(2), tlkrr(0, 1, 2), cls(0), w(g.long()), cls(1), cls(2), w(g.long())},
+		[]string{"ok-unary", "ok-unary", "ok-stream"}, []string{"ok-unary", "ok-stream"}, []string{"ok-unary", "ok-unary", "ok-unary"}), true, false, true))
+	out = append(out, shm(mk("late-advertiser", false, 2, []c42Op{opn(0), opn(1), tlkrr(0, 1), cls(1), cls(0), w(g.long())},
+		[]string{"ok-unary", "ok-unary", "ok-unary", "ok-unary"}, []string{"unknown-method", "ok-unary", "ok-unary"}), true, true))
+	out = append(out, shm(mk("concurrent", false, 3, []c42Op{opn(0), opn(1), opn(2), tlk(0, 1, 2), cls(0), cls(1), cls(2), w(g.long())},
+		[]string{"ok-unary", "ok-unary", "ok-stream", "ok-unary"}, []string{"ok-unary", "ok-stream", "ok-unary", "ok-unary"}, []string{"ok-unary", "ok-unary", "ok-unary", "ok-stream"}), true, true, true))
 	if tier == "thorough" {
 		// the startup grace really ends after 60 s without any connection
 		out = append(out, mk("grace-expiry", false, 1, []c42Op{w(c42GraceMs * 7 / 10), w(c42GraceMs * 9 / 10), opn(0)}))
@@ -735,6 +897,18 @@ func c42Random(r *rand.Rand, idle int, unix bool, maxConns, maxOps int) c42In {
 	}
 	for c := 0; c < nconn; c++ {
 		in.Conns = append(in.Conns, c42Calls(r, gate, c, 1+r.Intn(4), nil))
+	}
+	useRR := false
+	if r.Intn(3) == 0 { // some connections use a shm segment of their own
+		in.Shm = make([]bool, nconn)
+		for c := range in.Shm {
+			if r.Intn(3) > 0 {
+				in.Shm[c] = true
+				in.Conns[c] = c42ShmFix(r, gate, c, in.Conns[c])
+			}
+		}
+		useRR = r.Intn(3) > 0
+		in.Class += "-shm"
 	}
 	mon := newC42MonH(idle, in.Hook)
 	talked := map[int]bool{}
@@ -768,7 +942,11 @@ func c42Random(r *rand.Rand, idle int, unix bool, maxConns, maxOps int) c42In {
 			}
 			if len(cs) > 0 {
 				r.Shuffle(len(cs), func(i, j int) { cs[i], cs[j] = cs[j], cs[i] })
-				add(tlk(cs...))
+				if useRR || r.Intn(6) == 0 {
+					add(tlkrr(cs...))
+				} else {
+					add(tlk(cs...))
+				}
 			}
 		case k < 7 && len(openIDs) > 0:
 			add(cls(openIDs[r.Intn(len(openIDs))]))
@@ -852,6 +1030,6 @@ func c42GenInputs(r *rand.Rand, n int, tier string) []c42In {
 }
 
 func init() {
-	Register("C42", "per transport (Unix, TCP): boundary schedules (serve-start hook refusing the first / first two / all connections - refused first then B held while C comes and goes and a probe dial one idle period later, refusals separated by waits, refused connections only, a script that accepts at once; connection held open past the idle timeout, startup grace without any connection, dial inside the idle window, window restart at the second close, overlapping connections, three connections talking concurrently, idle timeout off; thorough: the 60 s startup grace expiring), then random schedules of open / concurrent talk / close / wait over 2-4 (thorough 2-6) connections with scripted C02 call histories of every in-scope class; waits never end near a timer expiry and a case whose real timing missed the schedule's precondition is re-run; non-trivial = at least two connections, at least one talked, and the listener was seen to stop; distinct = distinct input JSON",
+	Register("C42", "per transport (Unix, TCP): boundary schedules (connections shipping their parameter batches through a shm segment of their own - two and three of them talking round-robin so that every init precedes every pointer request, mixed with a plain connection, a connection whose first call fails, concurrent talk; serve-start hook refusing the first / first two / all connections - refused first then B held while C comes and goes and a probe dial one idle period later, refusals separated by waits, refused connections only, a script that accepts at once; connection held open past the idle timeout, startup grace without any connection, dial inside the idle window, window restart at the second close, overlapping connections, three connections talking concurrently, idle timeout off; thorough: the 60 s startup grace expiring), then random schedules of open / concurrent talk / close / wait over 2-4 (thorough 2-6) connections with scripted C02 call histories of every in-scope class; waits never end near a timer expiry and a case whose real timing missed the schedule's precondition is re-run; non-trivial = at least two connections, at least one talked, and the listener was seen to stop; distinct = distinct input JSON",
 		c42GenInputs, c42Run)
 }
